@@ -666,6 +666,9 @@ where
                 }
             }
 
+            // the group length must account for the values filled in above
+            meta.update_information_group_length();
+
             Ok(FileDicomObject { meta, obj })
         } else {
             ReadUnrecognizedTransferSyntaxSnafu {
